@@ -1,7 +1,7 @@
 (* C14 — simulated valuations are sound lower bounds of the true valuations. Statements only. *)
 From Coq Require Import Arith ZArith QArith List Bool Lia.
 Import ListNotations.
-From SCK Require Import Argsort ElicitM ElicitRun ElicitEval ElicitBS ElicitRules ElicitSpec ElicitSpecProof ElicitFinal.
+From SCK Require Import Argsort ElicitM ElicitRun ElicitEval ElicitBS ElicitRules ElicitSpec ElicitSpecProof ElicitFinal ElicitM2Q.
 Local Open Scope Z_scope.
 
 (* Setting for the three threshold rules (k-ARV: byq = false, init = 0; lambda-TSF: byq = false, init = 1e-5;
@@ -72,4 +72,31 @@ Theorem C14_level_major_equals_agent_major : forall fixer V ranked tau byq n m k
 Proof. exact thr_rule_pure. Qed.
 Print Assumptions C14_level_major_equals_agent_major.
 
-(* NOT yet proved for all inputs (checked per case by the direct oracle): Match-TwoQueries' row characterisation. *)
+(* Match-TwoQueries: the pure evaluation of its query program is, agent by agent, m2q_row ... *)
+Theorem C14_m2q_pure_evaluation : forall fixer V P eps, eval fixer V (m2qP P eps) = map (m2q_row fixer V P eps) (seq 0 (length P)).
+Proof. exact m2q_pure. Qed.
+Print Assumptions C14_m2q_pure_evaluation.
+(* ... and at position q of agent i's ranking (A = the item root_n_serial_dictatorship gives agent i, r = its rank) the
+   row holds: the favourite's true value (q = 0), the representative's true value for the representative and for every
+   item strictly between (1 <= q <= r-1), and the 1e-5 floor below *)
+Theorem C14_m2q_row_contents : forall fixer V P eps,
+  let n := length P in let m := length (nth 0 P []) in
+  (1 <= m)%nat -> (forall row, In row P -> length row = m /\ strict_rowb row = true) ->
+  forall i, (i < n)%nat -> let rk := rank_list (nth i P []) in let A := nth i (rootn_sd P) 0 in
+  0 <= A < Z.of_nat m -> let r := nth (Z.to_nat A) (nth i P []) 0 in
+  forall q, 0 <= q < Z.of_nat m ->
+  nth (Z.to_nat (rkat rk q)) (m2q_row fixer V P eps i) 0%Q =
+  if (q =? 0) then Vz fixer V i (rkat rk 0) else if (q <=? r - 1) then Vz fixer V i A else eps.
+Proof. exact m2q_row_spec. Qed.
+Print Assumptions C14_m2q_row_contents.
+(* with a consistent valuation the copied value is a lower bound of the true value of every item it is copied to *)
+Theorem C14_m2q_copy_is_lower_bound : forall fixer V P,
+  let n := length P in let m := length (nth 0 P []) in
+  (1 <= m)%nat -> (forall row, In row P -> length row = m /\ strict_rowb row = true) ->
+  forall i, (i < n)%nat -> let rk := rank_list (nth i P []) in let A := nth i (rootn_sd P) 0 in
+  0 <= A < Z.of_nat m -> let r := nth (Z.to_nat A) (nth i P []) 0 in
+  (forall j j', (j < m)%nat -> (j' < m)%nat -> nth j (nth i P []) 0 <= nth j' (nth i P []) 0 ->
+     (Vz fixer V i (Z.of_nat j') <= Vz fixer V i (Z.of_nat j))%Q) ->
+  forall q, 0 <= q <= r - 1 -> (Vz fixer V i A <= Vz fixer V i (rkat rk q))%Q.
+Proof. exact m2q_copy_is_lower_bound. Qed.
+Print Assumptions C14_m2q_copy_is_lower_bound.
